@@ -42,7 +42,8 @@ Next ==
     \/ \E a \in Addr : \E tk \in BOOLEAN :
           /\ (tk <=> (WOs(cmode) # {} /\ \A w \in WOs(cmode) : rrev[a] > rrev[w]))
           /\ AddCheck(a, tk)
-    \/ \E a \in Addr : \E cf \in BOOLEAN : \E tk \in BOOLEAN : \E S \in SUBSET Addr :
+    \/ \E a \in Addr : \E cf \in BOOLEAN : \E tk \in BOOLEAN :
+       \E S \in (SUBSET Addr) \cup (IF "snapfail" \in Ops THEN {{ModeFail}} ELSE {}) :
           /\ (cf => "createfail" \in Ops)
           /\ (S # {} => ("snapfail" \in Ops /\ Cardinality(S) = 1))
           /\ (tk <=> (WOs(cmode) # {} /\ \A w \in WOs(cmode) : rrev[a] > rrev[w]))
@@ -58,7 +59,7 @@ Next ==
     \/ \E A \in SUBSET Members : nextW <= MaxW /\ \E X \in {{}, A \cap Writers} : Mutate("Write", A, nextW, X)
     \/ ("sync" \in Ops /\ \E A \in SUBSET Members : \E k \in {"Sync", "Unmap"} : Mutate(k, A, 0, {}))
     \/ ("read" \in Ops /\ \E A \in SUBSET Members : \E T \in SUBSET (A \cap Readers) :
-            \E s \in (Readers \ A) \cup {""} : \E X \in {{}, T} : Read(A, T, s, X))
+            \E s \in (Writers \ A) \cup {""} : \E X \in {{}, T} : Read(A, T, s, X))
     \/ ("snapshot" \in Ops /\ \E n \in SnapNames : \E S \in SUBSET Addr :
           /\ (S # {} => ("snapfail" \in Ops /\ Cardinality(S) = 1))
           /\ SnapCount < MaxSnap
